@@ -56,7 +56,14 @@ impl MultiPattern {
                 .0
                 .atoms
                 .last()
-                .map_or(true, |last| !last.negative)
+                .map_or(true, |last| {
+                    // appending to the text can only narrow the previous matches if the
+                    // last atom keeps its meaning: a trailing `$` stops being a postfix/exact
+                    // marker and a trailing `\` becomes an escape for the appended character
+                    !last.negative
+                        && !matches!(last.kind, AtomKind::Postfix | AtomKind::Exact)
+                        && !last.needle_text().chars().last().is_some_and(|c| c == '\\')
+                })
         {
             self.cols[column].1 = Status::Update;
         } else {
